@@ -30,6 +30,7 @@ type c13reader struct {
 	ready  chan struct{} // closed when the service's own SetReaderConfig has been answered
 	once   sync.Once
 	pushed [][]byte // payloads pushed, by index
+	rejectCfg bool  // this connection answers the service's own SetReaderConfig with an error status
 }
 
 func (r *c13reader) write(b []byte) error {
@@ -67,6 +68,18 @@ func (r *c13reader) serve(conn net.Conn, hello []byte) {
 			continue
 		}
 		at, ap := c14response(f)
+		if f.typ == 14 { // CloseConnection is answered by CloseConnectionResponse (4), then the reader hangs up
+			_ = r.write(append(c14header(1, 4, len(ap), f.id), ap...))
+			time.Sleep(2 * time.Millisecond)
+			conn.Close()
+			return
+		}
+		if f.typ == 3 && r.rejectCfg {
+			// refuse the keep-alive configuration: the service gives this connection up and dials again
+			ap = []byte{0x01, 0x1F, 0x00, 0x08, 0x00, 0x65, 0x00, 0x00} // LLRPStatus: M_FieldError
+			_ = r.write(append(c14header(1, at, len(ap), f.id), ap...))
+			continue
+		}
 		if err := r.write(append(c14header(1, at, len(ap), f.id), ap...)); err != nil {
 			return
 		}
@@ -210,18 +223,43 @@ func c13round(t *testing.T, o *vout, rng *vrng, ndev, perDev, round int) {
 		r := &c13reader{ln: ln, ready: make(chan struct{})}
 		readers[i] = r
 		names[i] = fmt.Sprintf("vdev-%d-%d", round, i)
+		// how this reader's first connection goes: 0 normally; 1 it refuses the connection attempt (another client holds
+		// the reader) and hangs up; 2 it accepts, but refuses the service's SetReaderConfig. Whatever it says on the way is
+		// a reader event received from this device and is published like any other.
+		mode := (round + i) % 3
+		refusal := c13mustMarshal(llrp.NewConnectMessage(llrp.ConnExistsClientInitiated))
 		go func() {
-			c, err := ln.Accept()
-			if err != nil {
-				return
+			first := true
+			for {
+				c, err := ln.Accept()
+				if err != nil {
+					return
+				}
+				if first && mode == 1 {
+					first = false
+					_, _ = c.Write(append(c14header(1, 63, len(refusal), 0), refusal...))
+					time.Sleep(5 * time.Millisecond)
+					c.Close()
+					continue
+				}
+				r.mu.Lock()
+				r.rejectCfg = first && mode == 2
+				r.mu.Unlock()
+				first = false
+				r.serve(c, hello)
 			}
-			r.serve(c, hello)
 		}()
 		_, port, _ := net.SplitHostPort(ln.Addr().String())
 		if _, _, err := d.getDevice(names[i], protocolMap{"tcp": {"host": "127.0.0.1", "port": port}}); err != nil {
 			t.Fatal(err)
 		}
 		// the greeting itself is a reader event on this device's connection
+		switch mode {
+		case 1:
+			pushes = append(pushes, c13push{i, 63, refusal})
+		case 2:
+			pushes = append(pushes, c13push{i, 63, hello})
+		}
 		pushes = append(pushes, c13push{i, 63, hello})
 	}
 	for i, r := range readers {
